@@ -51,7 +51,22 @@ func init() {
 		}
 		// symbolic instant: the rendering is an uninterpreted, injective-per-second function of the seconds
 		if layout == time.RFC3339 {
-			return lower(mkUF("rfc3339", SStr, intTerm(t.Sec)))
+			u := mkUF("rfc3339", SStr, intTerm(t.Sec))
+			known := false
+			for _, p := range ex.rfcapps {
+				if p == u {
+					known = true
+				}
+			}
+			if !known {
+				// a rendered instant is never empty and determines its second
+				ex.assume(mkNot(mkEq(u, mkStr(""))))
+				for _, p := range ex.rfcapps {
+					ex.assume(mkImplies(mkEq(u, p), mkEq(u.Args[0], p.Args[0])))
+				}
+				ex.rfcapps = append(ex.rfcapps, u)
+			}
+			return lower(u)
 		}
 		panic(pathAbort{"unsupported: symbolic Time.Format layout " + layout})
 	})
@@ -71,6 +86,29 @@ func init() {
 		nsS := mkIte(mkEq(nsT, mkInt(0)), mkStr(""), mkConcat(mkStr("nanos:"), mkFromInt(nsT)))
 		both := mkAnd(mkNot(mkEq(secT, mkInt(0))), mkNot(mkEq(nsT, mkInt(0))))
 		return lower(mkConcat(secS, mkIte(both, mkStr(" "), mkStr("")), nsS))
+	})
+	reg("time.Parse", func(ex *Exec, fn *ssa.Function, args []Value, site string) Value {
+		layout, _ := args[0].(string)
+		if v, ok := args[1].(string); ok {
+			t, err := time.Parse(layout, v)
+			if err != nil {
+				return Tuple{TimeVal{Sec: int64(-62135596800), Nsec: int64(0), Zero: true}, mkErr(site, "time: parse error")}
+			}
+			return Tuple{TimeVal{Sec: t.Unix(), Nsec: int64(t.Nanosecond())}, Iface{}}
+		}
+		x := strTerm(args[1])
+		if x.Op == "uf" && x.Name == "rfc3339" {
+			// the rendering of an instant parses back to that instant (to the second)
+			return Tuple{TimeVal{Sec: lower(x.Args[0]), Nsec: int64(0)}, Iface{}}
+		}
+		// any other text: either it does not parse, or it denotes some instant
+		if ex.chooseFree(2) == 0 {
+			return Tuple{TimeVal{Sec: int64(-62135596800), Nsec: int64(0), Zero: true}, mkErr(site, "time: parse error")}
+		}
+		s := ex.freshVar("parsed", SInt, "int", false)
+		ex.assume(mkIntCmp("<=", mkInt(-62135596800), s))
+		ex.assume(mkIntCmp("<=", s, mkInt(253402300799)))
+		return Tuple{TimeVal{Sec: s, Nsec: int64(0)}, Iface{}}
 	})
 	reg("time.Now", func(ex *Exec, fn *ssa.Function, args []Value, site string) Value {
 		if ex.concreteMode() {
